@@ -60,7 +60,7 @@ def stepFaultAt (w : World) (op : Op) : FaultAt → World × Result
 /-- statements (and the allocations between them) an op executes inside its transaction bracket, at most -/
 def stmts : Op → Nat
   | .mkLoop _ _ names => 2 + names.length
-  | .addPkt _ p => 2 + 2 * p.length
+  | .addPkt _ p => 3 + 2 * p.length          -- UPDATE_PACKET_NUM, GET_PACKET_NUM, per entry CHECK_ITEM_LOOP + INSERT_VALUE, FILL_PACKET
   | .itUpd _ p => p.length
   | .setVal .. => 8
   | .rmItem .. | .mkBlock .. | .mkFrame .. | .addItem .. | .itRem _ | .itOpen _ => 2
